@@ -32,6 +32,7 @@ type whStep struct {
 	Mode    string        `json:"mode,omitempty"` // none | all | semver
 	Judge   bool          `json:"judge,omitempty"`
 	Older   bool          `json:"older,omitempty"` // leftover: id older than every bundle so far
+	Prep    bool          `json:"prep,omitempty"`  // setlabel: the label value was built before the history started
 	// observations
 	ID      string        `json:"id,omitempty"`
 	Entries []world.Entry `json:"entries,omitempty"`
@@ -59,6 +60,13 @@ func whRun(cs *whCase, r *gen.Rand) {
 	ctx := context.Background()
 	var ids []string
 	sec := int64(1000)
+	// label values built ahead of time: their descriptors are older than anything the history stores
+	prepared := map[int]*core.Label{}
+	for i := range cs.Steps {
+		if cs.Steps[i].Op == "setlabel" && cs.Steps[i].Prep {
+			prepared[i] = core.NewLabel(core.LabelDescriptor(model.NewLabelDescriptor(model.LabelName(cs.Steps[i].Name))))
+		}
+	}
 	for i := range cs.Steps {
 		s := &cs.Steps[i]
 		s.Ok, s.Err, s.Str, s.Pairs, s.Strs = false, "", nil, nil, nil
@@ -108,6 +116,9 @@ func whRun(cs *whCase, r *gen.Rand) {
 			w.PutBundle(s.Repo, s.ID, s.Entries, 1000, false)
 		case "setlabel":
 			l := core.NewLabel(core.LabelDescriptor(model.NewLabelDescriptor(model.LabelName(s.Name))))
+			if p, ok := prepared[i]; ok {
+				l = p
+			}
 			b := core.NewBundle(core.Repo(s.Repo), core.ContextStores(st), core.BundleID(bundleID()), core.Logger(world.Nop))
 			s.ID = bundleID()
 			err = l.UploadDescriptor(ctx, b)
@@ -249,6 +260,15 @@ var whRepos = []string{"r", "r2", "r-x", "repo", "repo2"}
 var whLabelNames = []string{"v1", "v1.0.0", "1.2", "v1-rc", "latest", "l", "l-2", "l_3", "v10", "0.0.1-beta", "rel"}
 var whHostile = []string{"a/b", "x y", "dot.ted", "", "label.yaml", "é1", "/x", "../x", ".", "/", "-v", "_", "v1/"}
 
+func indexOf(l []int, x int) int {
+	for i, y := range l {
+		if y == x {
+			return i
+		}
+	}
+	return 0
+}
+
 func whTree(r *gen.Rand, n int) []world.File {
 	var fs []world.File
 	for i := 0; i < n; i++ {
@@ -307,7 +327,42 @@ func whGen(prop string, r *gen.Rand, big int) *whCase {
 			}
 			return repos[r.Intn(len(repos))]
 		}
+		have := map[string]map[string]int{} // repo -> label -> bundle it was last set to
+		note := func(repo, name string, b int) {
+			if have[repo] == nil {
+				have[repo] = map[string]int{}
+			}
+			have[repo][name] = b
+		}
+		for _, st := range steps {
+			if st.Op == "setlabel" {
+				note(st.Repo, st.Name, st.Bundle)
+			}
+		}
 		for i := 0; i < r.Range(10, 25); i++ {
+			if r.Chance(1, 5) { // an existing label is moved to another bundle with a label value built before the history started
+				var cands [][2]string
+				for _, rp := range repos {
+					if len(byRepo[rp]) >= 2 {
+						for nm := range have[rp] {
+							cands = append(cands, [2]string{rp, nm})
+						}
+					}
+				}
+				sort.Slice(cands, func(a, b int) bool { return cands[a][0]+"/"+cands[a][1] < cands[b][0]+"/"+cands[b][1] })
+				if len(cands) > 0 {
+					c := cands[r.Intn(len(cands))]
+					bs := byRepo[c[0]]
+					nb := bs[r.Intn(len(bs))]
+					if nb == have[c[0]][c[1]] {
+						nb = bs[(r.Intn(len(bs)-1)+1+indexOf(bs, nb))%len(bs)]
+					}
+					steps = append(steps, whStep{Op: "setlabel", Repo: c[0], Name: c[1], Bundle: nb, Judge: r.Chance(1, 4), Prep: true},
+						whStep{Op: "getlabel", Repo: c[0], Name: c[1], Bundle: -1})
+					note(c[0], c[1], nb)
+					continue
+				}
+			}
 			repo := pickRepo()
 			name := whLabelNames[r.Intn(len(whLabelNames))]
 			if r.Chance(1, 6) {
@@ -323,7 +378,10 @@ func whGen(prop string, r *gen.Rand, big int) *whCase {
 				if r.Chance(1, 3) {
 					op = "movelabel"
 				}
-				steps = append(steps, whStep{Op: op, Repo: repo, Name: name, Bundle: b, Judge: r.Chance(1, 4)})
+				steps = append(steps, whStep{Op: op, Repo: repo, Name: name, Bundle: b, Judge: r.Chance(1, 4), Prep: op == "setlabel" && r.Chance(1, 3)})
+				if b >= 0 {
+					note(repo, name, b)
+				}
 			case 2:
 				steps = append(steps, whStep{Op: "dellabel", Repo: repo, Name: name, Bundle: -1})
 			case 3:
@@ -494,7 +552,7 @@ func whProp(prop string) propFn {
 		c.Report = map[string]string{"C08": "report08", "C09": "report09", "C10": "report10"}[prop]
 		c.PerFile = 2
 		c.Rule = map[string]string{
-			"C08": "histories of label set / overwrite / delete / get / prefix-filtered listing over 2..4 repositories with prefix-related names (r, r2, r-x, repo, repo2), label names from the documented alphabet (semver-looking and not) plus hostile names (slash, space, dot, empty, 'label.yaml', unicode letters), unknown repositories; stores snapshotted around a quarter of the assignments; non-trivial = history with at least three successful label operations, distinct by steps",
+			"C08": "histories of label set (with label values built on the spot, built before the history started, or read back from the store and re-used) / overwrite / delete / get / prefix-filtered listing over 2..4 repositories with prefix-related names (r, r2, r-x, repo, repo2), label names from the documented alphabet (semver-looking and not) plus hostile names (slash, space, dot, empty, 'label.yaml', unicode letters), unknown repositories; stores snapshotted around a quarter of the assignments; non-trivial = history with at least three successful label operations, distinct by steps",
 			"C09": "histories creating 2..4 prefix-related repositories with bundles sharing content, leftovers of interrupted uploads and labels, followed by delete / rename (also onto an existing name) / delete-files (also on bundles of 1000..2500 entries in several file lists: a few entries, a whole list, the last entry, everything) with full store snapshots before and after, then listings of every repository; concurrent creation of one repository name by 2..8 goroutines; non-trivial = judged operation that succeeded, distinct by steps",
 			"C10": "histories of 0..7 bundles per repository with labels (semver and not) and leftovers of interrupted uploads older and newer than the committed bundles, squashed with retain-N 1..5 and each retain-tags option, snapshots before and after, latest-bundle resolution before and after; non-trivial = squash that removed at least one bundle, distinct by steps",
 		}[prop]
